@@ -82,7 +82,8 @@ impl Comps for (f32, Vec2) {
 
 fn run<V: Comps>(case: &Value) -> (bool, Vec<Value>) {
     let s = gi(case, "s") as i32;
-    let unit = (1u32 << s) as f32;
+    // (s >= 100: s - 100 units per pixel - a lattice whose points are not binary fractions)
+    let unit = if s >= 100 { (s - 100) as f32 } else { (1u32 << s) as f32 };
     // all reciprocal depths (and with them the pre-divided attributes) times 2^zsc, exactly:
     // the same surface seen at another absolute distance; undone (exactly) when recording
     let zsc = case.get("zsc").and_then(|v| v.as_i64()).unwrap_or(0) as i32;
@@ -277,6 +278,26 @@ pub fn gen(args: &Args, out: &mut dyn Write) {
         }
     }
     // 1d. long spans and tall triangles (more than 256, 512 pixels in one direction), judged on positions
+    // 1e. a twelfth-of-a-pixel lattice (its points are no binary fractions) on 3x3 pixels, slivers frequent
+    if mode == "random" || mode == "all" {
+        for i in 0..(if thorough { 60_000 } else { 4_000 }) {
+            let m = 36;
+            let mut v = [[rng.range(0, m), rng.range(0, m)], [rng.range(0, m), rng.range(0, m)], [rng.range(0, m), rng.range(0, m)]];
+            if i % 2 == 0 {
+                // a sliver one to three twelfths wide, a pixel or more long
+                let (x, y, h) = (rng.range(1, m - 6), rng.range(0, m - 14), rng.range(12, 30));
+                let t = rng.range(1, 3);
+                let lean = rng.range(-4, 4);
+                v = [[x, y], [x + t, y], [x + lean, (y + h).min(m)]];
+                if rng.chance(1, 2) { for p in v.iter_mut() { p.swap(0, 1); } }
+                if rng.chance(1, 2) { v.swap(0, 1); }
+            }
+            let (ty, n) = TYS[i % 5];
+            let z: Vec<i64> = if rng.chance(1, 3) { vec![20, 20, 20] } else { (0..3).map(|_| *rng.pick(&ZS)).collect() };
+            let a = attrs(&mut rng, n, 12);
+            writeln!(out, "{}", json!({"k": format!("D{}-{}", args.seed, i), "s": 112, "v": v, "Z": z, "A": a, "ty": ty, "c05": 1, "zsc": 0, "asc": 0, "skip": 0})).unwrap();
+        }
+    }
     if mode == "long" {
         for i in 0..(if thorough { 400 } else { 40 }) {
             let len = rng.range(258, 700);
